@@ -57,6 +57,35 @@ func c15R7(c *Ctx) {
 			}
 		}
 	}
+	// ... or returned by a same-package look-up helper that is handed the matched lists
+	for _, n := range g.Nodes {
+		as, ok := n.Ast.(*ast.AssignStmt)
+		if !ok || len(as.Rhs) != 1 {
+			continue
+		}
+		call, ok := ast.Unparen(as.Rhs[0]).(*ast.CallExpr)
+		if !ok {
+			continue
+		}
+		fn := core.Callee(info, call)
+		if fn == nil || c.P.DeclOf(fn) == nil {
+			continue
+		}
+		takesList := false
+		for _, a := range call.Args {
+			if sliceParams[core.VarOf(info, a)] {
+				takesList = true
+			}
+		}
+		if !takesList {
+			continue
+		}
+		for _, lh := range as.Lhs {
+			if v := core.VarOf(info, lh); v != nil && types.Identical(v.Type(), none.Type()) {
+				aptVars[v] = true
+			}
+		}
+	}
 	if len(aptVars) == 0 {
 		r.Undecided(rule, "matchRemoteCodec|apt-branch|primary-matched", pos, "no match-type local set by a look-up loop over the already matched lists")
 		return
